@@ -35,6 +35,21 @@ type xmlDecState struct {
 	pendingEnd *Str
 	model      *Iface
 	tokType    *types.Struct
+	// limits: one entry per UnmarshalXML call in progress on a container (encoding/xml's
+	// pushEOF): Token reports io.EOF once that container's end element has been returned
+	limits []*xmlLimit
+}
+
+type xmlLimit struct {
+	depth int
+	done  bool
+}
+
+func (ds *xmlDecState) top() *xmlLimit {
+	if len(ds.limits) == 0 {
+		return nil
+	}
+	return ds.limits[len(ds.limits)-1]
 }
 
 func (in *Interp) encState(c *Cell) *xmlEncState {
@@ -338,6 +353,10 @@ func init() {
 			ds.pendingEnd, ds.model = nil, nil
 			return Tuple{Iface{t: xmlPkgType(in, "EndElement"), v: StructV{[]Value{StructV{[]Value{Str{}, name}}}}}, Iface{}}
 		}
+		if l := ds.top(); l != nil && l.done {
+			ep := in.prog.ImportedPackage("io")
+			return Tuple{Iface{}, in.load(in.global(ep.Var("EOF")))}
+		}
 		if ds.pos >= len(ds.toks) {
 			ep := in.prog.ImportedPackage("io")
 			eof := in.load(in.global(ep.Var("EOF")))
@@ -376,9 +395,18 @@ func init() {
 				ds.model = &mm
 				nn := name
 				ds.pendingEnd = &nn
+			} else if l := ds.top(); l != nil {
+				l.depth++
 			}
 			return Tuple{Iface{t: xmlPkgType(in, "StartElement"), v: in.mkStartElement(name, attrs)}, Iface{}}
 		case 1: // end
+			if l := ds.top(); l != nil {
+				if l.depth == 0 {
+					l.done = true
+				} else {
+					l.depth--
+				}
+			}
 			return Tuple{Iface{t: xmlPkgType(in, "EndElement"), v: StructV{[]Value{StructV{[]Value{Str{}, name}}}}}, Iface{}}
 		case 2: // character data
 			return Tuple{Iface{t: xmlPkgType(in, "CharData"), v: in.bytesToSlice(in.strBytes(name))}, Iface{}}
@@ -397,9 +425,27 @@ func init() {
 		}
 		in.stubsHit["(*encoding/xml.Decoder).DecodeElement (copies the token's model into the target)"]++
 		if ds.model == nil {
-			// a container element without a model: consume it like Skip and leave the target untouched
-			in.xmlSkip(ds)
-			return Iface{}
+			// a container element: decode its children by the struct tags of the target
+			target := c.args[1].(Iface)
+			tp, ok := target.t.Underlying().(*types.Pointer)
+			if !ok {
+				return in.mkError("xml: non-pointer passed to Unmarshal")
+			}
+			tc := target.v.(Ptr).c
+			if tc == nil {
+				return in.mkError("xml: nil pointer passed to Unmarshal")
+			}
+			var name Str
+			var attrs [][2]Str
+			if sp, ok := c.args[2].(Ptr); ok && sp.c != nil {
+				name, attrs = in.readStartElement(in.load(sp.c))
+			} else {
+				in.unsupported("xml.DecodeElement of a container without its start element")
+			}
+			if l := ds.top(); l != nil {
+				l.depth-- // the container's start came from Token; its end is consumed here
+			}
+			return in.xmlDecodeContainer(c.g, d, ds, tc, tp.Elem(), name, attrs)
 		}
 		model := *ds.model
 		// encoding/xml refuses an element whose name differs from the target's XMLName tag
@@ -424,6 +470,9 @@ func init() {
 		if ds.pendingEnd != nil { // the current element is an atomic one
 			ds.pendingEnd, ds.model = nil, nil
 			return Iface{}
+		}
+		if l := ds.top(); l != nil {
+			l.depth--
 		}
 		return in.xmlSkip(ds)
 	}
@@ -506,4 +555,234 @@ func xmlTagName(t types.Type) string {
 		}
 	}
 	return ""
+}
+
+// ---- container elements
+//
+// A start token WITHOUT a model is a container: its children follow as tokens up to
+// the matching end token. DecodeElement/Decode of a container into a struct assigns
+// each child element to the field whose `xml:"name"` tag (read from the current tree's
+// struct types) names it, as encoding/xml does: slices append, pointer fields are
+// allocated once and then accumulate (repeated <create> blocks), attributes fill
+// `,attr` string fields, unknown children, character data and comments are skipped,
+// an XMLName tag that differs from the element name is an error, and a target type
+// with an UnmarshalXML method is decoded by that method (the real code). Children
+// that carry a model are atomic (copied).
+
+func xmlFieldTag(st *types.Struct, i int) (name string, attr, special bool) {
+	tag := reflect.StructTag(st.Tag(i)).Get("xml")
+	if tag == "-" {
+		return "", false, true
+	}
+	parts := strings.Split(tag, ",")
+	name = parts[0]
+	if j := strings.LastIndex(name, " "); j >= 0 {
+		name = name[j+1:]
+	}
+	for _, p := range parts[1:] {
+		switch p {
+		case "attr":
+			attr = true
+		case "chardata", "cdata", "innerxml", "comment", "any":
+			special = true
+		}
+	}
+	if name == "" && !special {
+		name = st.Field(i).Name()
+	}
+	if strings.Contains(name, ">") {
+		special = true
+	}
+	return
+}
+
+// xmlDecodeContainer decodes the children of the container whose start token has just
+// been consumed into the value in cell (of Go type t).
+func (in *Interp) xmlDecodeContainer(g *Goroutine, dec Ptr, ds *xmlDecState, cell *Cell, t types.Type, name Str, attrs [][2]Str) Value {
+	// pointer targets: allocate once, then accumulate
+	if p, ok := t.Underlying().(*types.Pointer); ok {
+		cur := in.load(cell).(Ptr)
+		if cur.c == nil {
+			cur = Ptr{in.newCell(p.Elem())}
+			in.store(cell, cur)
+		}
+		return in.xmlDecodeContainer(g, dec, ds, cur.c, p.Elem(), name, attrs)
+	}
+	if m := in.findMethod(types.NewPointer(t), "UnmarshalXML"); m != nil && m.Signature.Params().Len() == 2 {
+		se := in.mkStartElement(name, attrs)
+		lim := &xmlLimit{}
+		ds.limits = append(ds.limits, lim)
+		r := in.callSync(g, &Closure{fn: m}, []Value{Ptr{cell}, dec, se})
+		ds.limits = ds.limits[:len(ds.limits)-1]
+		if e, ok := r.(Iface); ok && e.t != nil {
+			return e
+		}
+		if !lim.done {
+			return in.mkError("xml: UnmarshalXML did not consume entire <" + name.s + "> element")
+		}
+		return Iface{}
+	}
+	st, ok := t.Underlying().(*types.Struct)
+	if !ok {
+		in.unsupported("xml: container element decoded into %s", t)
+	}
+	if want := xmlTagName(t); want != "" {
+		if name.sym == nil && name.rope == nil && name.s != want {
+			in.xmlSkip(ds)
+			return in.mkError("expected element type <" + want + "> but have <" + name.s + ">")
+		}
+	}
+	in.stubsHit["xml container decoding by struct tags of the current tree"]++
+	for i := 0; i < st.NumFields(); i++ {
+		fname, isAttr, special := xmlFieldTag(st, i)
+		if !isAttr || special {
+			continue
+		}
+		for _, a := range attrs {
+			if a[0].sym == nil && a[0].rope == nil && a[0].s == fname {
+				if isString(st.Field(i).Type()) {
+					in.store(cell.sub[i], a[1])
+				} else {
+					in.unsupported("xml: attribute %s of non-string type %s on a container", fname, st.Field(i).Type())
+				}
+			}
+		}
+	}
+	for {
+		if ds.pos >= len(ds.toks) {
+			return in.mkError("XML syntax error: unexpected EOF")
+		}
+		tok := ds.toks[ds.pos].(StructV)
+		ds.pos++
+		kind := tok.f[0].(*Term)
+		if !kind.IsConst() {
+			in.unsupported("symbolic token kind")
+		}
+		switch kind.I64() {
+		case 1:
+			return Iface{}
+		case 2, 3:
+			continue
+		case 5:
+			if h, ok := tok.f[4].(*Closure); ok && h != nil {
+				in.callSync(g, h, nil)
+			}
+			continue
+		case 0:
+		default:
+			ds.pos = len(ds.toks)
+			return in.mkError("XML syntax error: unexpected EOF")
+		}
+		cname := tok.f[1].(Str)
+		var cattrs [][2]Str
+		if sl, ok := tok.f[2].(SliceV); ok {
+			for i := 0; i < sl.len; i++ {
+				a := in.load(in.elem(sl.arr, sl.off+i)).(StructV)
+				cattrs = append(cattrs, [2]Str{a.f[0].(Str), a.f[1].(Str)})
+			}
+		}
+		var model *Iface
+		if m, ok := tok.f[3].(Iface); ok && m.t != nil {
+			mm := m
+			model = &mm
+		}
+		if cname.sym != nil || cname.rope != nil {
+			in.unsupported("xml: symbolic element name inside a container")
+		}
+		fi := -1
+		for i := 0; i < st.NumFields(); i++ {
+			fname, isAttr, special := xmlFieldTag(st, i)
+			if !isAttr && !special && fname == cname.s && st.Field(i).Name() != "XMLName" {
+				fi = i
+				break
+			}
+		}
+		if fi < 0 { // unknown element: skipped
+			if model == nil {
+				if e := in.xmlSkip(ds); !isNilValue(e) {
+					return e
+				}
+			}
+			continue
+		}
+		ft := st.Field(fi).Type()
+		fc := cell.sub[fi]
+		var e Value = Iface{}
+		if sl, ok := ft.Underlying().(*types.Slice); ok {
+			ec := in.newCell(sl.Elem())
+			e = in.xmlDecodeChild(g, dec, ds, ec, sl.Elem(), cname, cattrs, model)
+			if isNilValue(e) {
+				cur, _ := in.load(fc).(SliceV)
+				in.store(fc, in.appendVals(cur, []Value{in.load(ec)}, sl.Elem()))
+			}
+		} else {
+			e = in.xmlDecodeChild(g, dec, ds, fc, ft, cname, cattrs, model)
+		}
+		if !isNilValue(e) {
+			return e
+		}
+	}
+}
+
+// xmlDecodeChild: one child element into the value in cell: atomic (model copy) or container.
+func (in *Interp) xmlDecodeChild(g *Goroutine, dec Ptr, ds *xmlDecState, cell *Cell, t types.Type, name Str, attrs [][2]Str, model *Iface) Value {
+	if model == nil {
+		return in.xmlDecodeContainer(g, dec, ds, cell, t, name, attrs)
+	}
+	if want := xmlTagName(t); want != "" && name.s != want {
+		return in.mkError("expected element type <" + want + "> but have <" + name.s + ">")
+	}
+	return in.xmlCopyModel(*model, Iface{t: types.NewPointer(t), v: Ptr{cell}})
+}
+
+// xmlDecodeDocument: (*Decoder).Decode over a token stream.
+func (in *Interp) xmlDecodeDocument(g *Goroutine, dec Ptr, ds *xmlDecState, target Iface) Value {
+	tp, ok := target.t.Underlying().(*types.Pointer)
+	if !ok {
+		return in.mkError("xml: non-pointer passed to Unmarshal")
+	}
+	tc := target.v.(Ptr).c
+	if tc == nil {
+		return in.mkError("xml: nil pointer passed to Unmarshal")
+	}
+	for {
+		if ds.pos >= len(ds.toks) {
+			return in.load(in.global(in.prog.ImportedPackage("io").Var("EOF")))
+		}
+		tok := ds.toks[ds.pos].(StructV)
+		ds.pos++
+		kind := tok.f[0].(*Term)
+		if !kind.IsConst() {
+			in.unsupported("symbolic token kind")
+		}
+		switch kind.I64() {
+		case 0:
+			name := tok.f[1].(Str)
+			var attrs [][2]Str
+			if sl, ok := tok.f[2].(SliceV); ok {
+				for i := 0; i < sl.len; i++ {
+					a := in.load(in.elem(sl.arr, sl.off+i)).(StructV)
+					attrs = append(attrs, [2]Str{a.f[0].(Str), a.f[1].(Str)})
+				}
+			}
+			var model *Iface
+			if m, ok := tok.f[3].(Iface); ok && m.t != nil {
+				mm := m
+				model = &mm
+			}
+			in.stubsHit["(*encoding/xml.Decoder).Decode over a harness token stream"]++
+			return in.xmlDecodeChild(g, dec, ds, tc, tp.Elem(), name, attrs, model)
+		case 2, 3:
+			continue
+		case 5:
+			if h, ok := tok.f[4].(*Closure); ok && h != nil {
+				in.callSync(g, h, nil)
+			}
+		case 1:
+			return in.mkError("XML syntax error: unexpected end element")
+		default:
+			ds.pos = len(ds.toks)
+			return in.mkError("XML syntax error: unexpected EOF")
+		}
+	}
 }
